@@ -8,7 +8,7 @@ COMMON_TRUSTED = [
 ]
 
 PROPS = {}
-HOOK_COMMITS = ["f0964c3", "f0ee85c", "a38392f", "da161e5", "5e35e30", "48a35e4"]
+HOOK_COMMITS = ["f0964c3", "f0ee85c", "a38392f", "da161e5", "5e35e30", "48a35e4", "bcc879f", "e7e32d2"]
 NOT_BUILT_REASON = "no check registered yet: the Lean model/theorems and the correspondence harness for this property have not been built in this session (work in progress, see DESIGN.md §12); the technique applies"
 
 PROPS["C05"] = {
@@ -273,12 +273,14 @@ PROPS["C18"] = {
         "Props.C18.readObject_progress", "Props.C18.readItems_progress", "Props.C18.fuel_sufficient",
         "Props.C18.fuel_sufficient_items", "Props.C18.ber2der_total", "Props.C18.readObject_fuel_mono",
         "Props.C18.readItems_fuel_mono", "Props.C18.fuel_irrelevant", "Props.C18.ber2der_fuel_irrelevant",
-        "Props.C18.readTag_bounds", "Props.C18.readTag_fuel",
+        "Props.C18.readTag_bounds", "Props.C18.readTag_fuel", "Props.C18.depth_bounded", "Props.C18.depth_bounded_items",
+        "Props.C18.tooDeep_only_rejects", "Props.C18.ber2der_depth", "Props.C18.encodeCost_le", "Props.C18.ber2der_cost",
+        "Props.C18.nested129_rejected", "Props.C18.nested128_accepted",
         "Props.C02.decrypt_rejects_short", "Props.C17.unpad_sound", "Props.C16.altered_ticket_never_resumes",
     ],
     "gen_items": [],
     "level": "proof",
-    "claim": "Where a Lean model of a decoder exists, totality and resource bounds are theorems for every byte string: the BER transcoder model (tied to x509/ber.go by exact-output correspondence in C17 and here) is total by construction, every object it reads consumes at least two bytes and never claims bytes beyond the input (readObject_progress / readItems_progress), and the recursion is bounded by the remaining input: with fuel 2*(len-off)+1 the model never runs out (fuel_sufficient, ber2der_total) and the result does not depend on the fuel (fuel_irrelevant) — i.e. the stack depth and loop count of the real recursive descent are at most linear in the input; the repaired code additionally refuses nesting deeper than 128. The SM2 ciphertext parser (C02 decrypt_rejects_short: short input is an error, never an out-of-range slice), PKCS#7 unpad (C17 unpad_sound) and the ticket gate (C16) are total functions with the error branches proved. For all 62 decoder entry points of the library (sm2 Decrypt in both orderings / DecryptAsn1 / CipherUnmarshal / CipherMarshal / Verify / Decompress; x509 certificates, requests, CRLs, PKCS#7 + Verify/Decrypt/DecryptSM2 with every key-type combination incl. nil and typed nil, BER, PKCS#8 with and without password, PEM and hex keys; pkcs12 Decode/DecodeAll/ToPEM incl. correctly MAC-ed mutated contents; sm4 key PEM; all 16 gmtls handshake message parsers, the session-state parser and decryptTicket incl. correctly sealed mutated states) the check runs the quantifier's derivation on a corpus of valid encodings made by the library: every truncation, single-byte substitutions from {00,01,7f,80,ff,b^1,b^80}, every TLV length rewritten to {0,len-1,len+1,80,84ffffffff}, universal tag swaps, consistent re-sizing of elements, BER nesting 10..10^4 in definite and indefinite form, empty input and random strings (about 26000 ops quick, 296000 thorough); each call runs under recover with wall-time (max(2 s, 100 us/byte)) and allocation (64 MiB + 1024/byte) limits, decoded values are then used (verification, decryption, chain building) so that lazily crashing values count.",
+    "claim": "Where a Lean model of a decoder exists, totality and resource bounds are theorems for every byte string: the BER transcoder model (tied to x509/ber.go by exact-output correspondence in C17 and here) is total by construction, every object it reads consumes at least two bytes and never claims bytes beyond the input (readObject_progress / readItems_progress), and the recursion is bounded by the remaining input: with fuel 2*(len-off)+1 the model never runs out (fuel_sufficient, ber2der_total) and the result does not depend on the fuel (fuel_irrelevant) — i.e. the stack depth and loop count of the real recursive descent are at most linear in the input; the repaired code refuses nesting deeper than 128 (depth_bounded, ber2der_depth; nested129_rejected / nested128_accepted show the bound is tight) and ber2der_cost bounds the bytes EncodeTo buffers by 129 x the output size. The SM2 ciphertext parser (C02 decrypt_rejects_short: short input is an error, never an out-of-range slice), PKCS#7 unpad (C17 unpad_sound) and the ticket gate (C16) are total functions with the error branches proved. For all 62 decoder entry points of the library (sm2 Decrypt in both orderings / DecryptAsn1 / CipherUnmarshal / CipherMarshal / Verify / Decompress; x509 certificates, requests, CRLs, PKCS#7 + Verify/Decrypt/DecryptSM2 with every key-type combination incl. nil and typed nil, BER, PKCS#8 with and without password, PEM and hex keys; pkcs12 Decode/DecodeAll/ToPEM incl. correctly MAC-ed mutated contents; sm4 key PEM; all 16 gmtls handshake message parsers, the session-state parser and decryptTicket incl. correctly sealed mutated states) the check runs the quantifier's derivation on a corpus of valid encodings made by the library: every truncation, single-byte substitutions from {00,01,7f,80,ff,b^1,b^80}, every TLV length rewritten to {0,len-1,len+1,80,84ffffffff}, universal tag swaps, consistent re-sizing of elements, BER nesting 10..10^4 in definite and indefinite form, empty input and random strings (about 26000 ops quick, 296000 thorough); each call runs under recover with wall-time (max(2 s, 100 us/byte)) and allocation (64 MiB + 1024/byte) limits, decoded values are then used (verification, decryption, chain building) so that lazily crashing values count.",
     "note": "Partial: panic-freedom of the Go decoders themselves is decided by the mutation sweep, not by generated verification conditions (the VC generator of the design was not built); theorems cover the modelled decoders only (BER, SM2 ciphertext split, unpad, ticket gate). Password-stretching iteration counts carried by PKCS#8 / PKCS#12 inputs are exempt from the time limit, as the property says.",
     "trusted_base": ["Model.BER tied by the ber2der op (C17 generator plus the C18 nesting inputs)", "harness/c18.go limits and decoder table; hooks gmtls/pkcs12 export_verif_c18.go (parsers, ticket and PFX re-sealing)", "Go runtime recover() semantics; runtime.MemStats for the allocation measure"],
     "assumptions": [],
@@ -319,6 +321,53 @@ PROPS["C06"] = {
     "trusted_base": ["Model.Negotiate tied by the hs op; extract/tls.go table extraction", "Spec.TLSPRF transcribes GM/T 0024 6.5 / RFC 5246 5 (validated by decoding real connections: Finished values and records)", "crypto/tls (stdlib) as the reference TLS implementation"],
     "assumptions": [],
     "not_proved": ["record fragmentation/reassembly of application data as a theorem (C07 has the record-layer theorems)", "key agreement correctness (both ends derive the same pre-master secret) as a theorem"],
+}
+
+PROPS["C15"] = {
+    "modules": ["Gmsm.Props.C15"],
+    "theorems": [
+        "Props.C15.done_only_expected", "Props.C15.run_done_iff", "Props.C15.run_done_expected",
+        "Props.C15.expected_gmServer_full", "Props.C15.expected_gmServer_clientCert", "Props.C15.expected_gmServer_resume",
+        "Props.C15.expected_gmClient_full", "Props.C15.expected_gmClient_ticket", "Props.C15.expected_gmClient_resume",
+        "Props.C15.expected_gmClient_resume_ticket", "Props.C15.expected_tlsServer_full", "Props.C15.expected_tlsServer_clientCert",
+        "Props.C15.expected_tlsClient_full", "Props.C15.expected_tlsClient_resume", "Props.C15.expected_server_unique",
+        "Props.C15.eof_is_error", "Props.C15.no_wait_after_eof", "Props.C15.closing_alerts_are_errors",
+        "Props.C15.unexpected_is_error", "Props.C15.expected_is_taken", "Props.C15.unexpected_cases", "Props.C15.unexpected_cases_ccs",
+        "Props.C15.expectedNext_length", "Props.C15.expectedNext_length_gm",
+        "Props.C15.progress", "Props.C15.six_warnings_fatal", "Props.C15.bounded_stall", "Props.C15.stall_bound",
+        "Props.C15.empty_records_unbounded",
+        "Props.C15.dispatch_auto", "Props.C15.dispatch_tlsOnly", "Props.C15.dispatch_gmOnly", "Props.C15.dispatch_reject_low",
+        "Props.C15.dispatch_high", "Props.C15.dispatch_version_has_prf", "Props.C15.auto_gm_iff",
+        "Props.C15.hello_refused", "Props.C15.hello_suite_offered",
+    ],
+    "gen_items": [],
+    "level": "proof",
+    "claim": "Model.Handshake is the message-acceptance automaton of the gmtls endpoints as the code is: the record-layer rules of readRecord/readHandshake (record type against phase, ChangeCipherSpec only when asked for and not while part of a message is buffered, oversized records and messages, at most 5 consecutive warning alerts, close_notify/fatal alert/EOF, the GMSSL client's missing haveVers) and the per-state type assertions of the GMSSL and TLS server and client (full, client-certificate, ticket and resumption variants, NPN, the TLS client's optional CertificateStatus/ServerKeyExchange/CertificateRequest), over an alphabet of 33 events. Proved for every configuration and EVERY finite event sequence: if the handshake completes with the last event, the sequence with tolerated events erased is one of the flights expected c, which are written out per role (done_only_expected, run_done_iff, expected_*); once the stream has ended no state keeps waiting (no_wait_after_eof, eof_is_error); in every state every event other than the at most two (TLS client: four) listed types and the tolerated ones is an error, with its alert (unexpected_is_error, unexpected_cases, unexpected_cases_ccs, expected_is_taken); every step errors, completes, moves to a later phase or is a tolerated event, the sixth consecutive warning alert is fatal, and a still-running endpoint has read at most 6*8+5 events other than empty records and record-boundary artefacts (progress, six_warnings_fatal, bounded_stall, stall_bound). Version dispatch for all client_version values at once by omega: below 0x0101 and in (0x0101,0x0300) every mode rejects; the auto-switch server enters GMSSL code iff v=0x0101, TLS code iff 0x0300<=v<=0x0303 at that version, and rejects everything else including all v>0x0303; TLS-only and GMSSL-only servers cap at 0x0303; no version without a PRF is ever negotiated (dispatch_*, dispatch_version_has_prf, auto_gm_iff); a hello with unsupported version, compression or suites is refused before any ServerHello and a ServerHello names an offered, servable suite (hello_refused, hello_suite_offered). Correspondence on every run: a man in the middle between the real endpoint under test and a genuine gmtls peer applies edit scripts to the stream towards the endpoint (drop, dup, swap, retype, insert any handshake type or record-level event incl. CCS, application data, alerts, empty/oversized/unknown/wrong-version records, truncation, length-field perturbation, split/join/trailing bytes, EOF before every item, EOF of the endpoint's own stream after every record), for GMSSL/TLS/auto-switch servers and GMSSL/TLS clients in full, client-cert, ticket and resumed handshakes, plus ClientHello version sweeps 0x0000..0x0400, suite lists of known and unknown ids and compression rewrites in all three server modes; Handshake's result, panics (both ends), waiting after end of stream (decided by exact deadlock detection, not time) and the alert written are compared line by line with the model (quick 1510 ops, thorough about 31 800: all single edits at every position, all pairs of order-level edits for the GMSSL roles, seeded multi-edit scripts).",
+    "note": "Partial: message contents are not modelled; a message of the expected type is taken to carry what the genuine peer wrote. The two content outcomes the state machine depends on are explicit events: malformed (body fails to unmarshal) and finishedBad (verify_data mismatch). The driver carries the abstract rule 'an edit that changes the bytes E hashes makes the transcripts differ, so the peer rejects E's answer / E's Finished check fails'; for trunc/len edits only done/error is compared (whether the parser notices is C18's subject), for all other edits the alert code is compared too (printed 'enc' once the endpoint writes under its new keys). A protected record cannot be forged by the man in the middle, so events after ChangeCipherSpec are limited to the genuine Finished and records that fail decryption. NPN and OCSP-status branches of the automaton are proved but not exercised (two gmtls peers never negotiate them). Certificate policy outcomes (empty certificate under Require*) are content-level and not in the automaton. The code does not bound empty handshake records (empty_records_unbounded) and a TLS-only/GMSSL-only server lets 0x0101 resp. >=0x0300 through mutualVersion; both are modelled as they are and listed in harness/c15_findings.txt.",
+    "trusted_base": ["Model.Handshake tied by the hsseq/hsflight/hsout/chmod ops (exact line equality incl. alert code) in harness/c15.go; the script->event translation Driver/Handshake.lean (streamOf, cipherPass, taints)", "harness deadlock detector (qWorld: all readers blocked on empty pipes) and the intrinsic oracles panic / hang / completed-on-misbehaviour", "harness/tls.go PKI and config builders; the genuine gmtls peer", "Go runtime recover()"],
+    "assumptions": ["messages of the expected type carry what an honest peer sends (contents outside the model)", "transcripts that differ never produce a matching Finished (collision resistance of SM3/SHA-256 and the PRF) — used only in the driver's translation, stated there", "default Config version limits (MinVersion/MaxVersion unset)"],
+    "not_proved": ["refinement of the Go code by the automaton as a theorem (tied by correspondence runs, not by proof)", "the converse of done_only_expected with all tolerance side conditions (acceptance of every expected flight with <=5 warnings between messages) beyond the worked examples", "byte-level reassembly across records (fragment/trailing are abstract events; the 64 KiB limit appears as the event oversizedMsg)", "parser totality on truncated/perturbed bodies (C18)"],
+}
+
+PROPS["C08"] = {
+    "modules": ["Gmsm.Props.C08"],
+    "theorems": [
+        "Props.C08.clientVerdict_none_iff", "Props.C08.serverVerdict_none_iff", "Props.C08.peerCertsCheck_none_iff",
+        "Props.C08.client_accepts_iff", "Props.C08.client_accepts_only_if", "Props.C08.verify_ok_nonempty",
+        "Props.C08.client_chain_meaning", "Props.C08.client_auth_policy_table", "Props.C08.server_accepts_iff",
+        "Props.C08.server_accepts_only_if", "Props.C08.client_finished_binds", "Props.C08.server_finished_binds",
+        "Props.C08.agree_or_abort", "Props.C08.tamper_detected", "Props.C08.tamper_detected_by_server",
+        "Props.C08.possession_needed", "Props.C08.server_needs_decryption_key", "Props.C08.foreign_ske_rejected",
+        "Props.C08.foreign_cv_rejected", "Props.C08.run_done_sound", "Props.C08.run_never_diverges",
+        "Props.C08.ideal_binding", "Props.C08.ideal_unforgeable", "Props.C08.run_never_diverges_ideal",
+    ],
+    "gen_items": [],
+    "level": "proof",
+    "claim": "Model.HandshakeAuth states the acceptance decision of each side of gmtls' GM/T 0024 full handshake (ECC suites e013/e053) as the ordered list of checks the code performs, over what that side received; what it sends and the transcript it hashes are computed, so 'same view' is an equation between message lists. Proved: client_accepts_iff / client_accepts_only_if (completes => >=2 certificates, all parse with SM2 keys, cert[0] may sign and cert[1] may encipher, InsecureSkipVerify or both chains verify against the roots at the configured time for the server name - client_chain_meaning unfolds this through C10 verify_sound -, a ServerKeyExchange whose signature verifies under cert[0]'s key over THIS client random, THIS server random and THIS cert[1], pre-master secret encrypted to cert[1]'s key, server Finished = PRF(master, SM3(own transcript))); server_accepts_iff / server_accepts_only_if and client_auth_policy_table (full ClientAuth table as an iff: no Certificate message for NoClientCert; non-empty list for the Require* policies; leaf verified against ClientCAs with EKU clientAuth for the *Verify* policies; CertificateVerify valid under the leaf key over the digest of the server's own transcript exactly when a certificate was given; ClientKeyExchange decrypted with the server's own key; client Finished over the server's transcript). Under the explicit hypothesis Binding (PRF and transcript hash injective): client_finished_binds / server_finished_binds / agree_or_abort (a side that accepts its peer's Finished holds the peer's transcript and master secret), tamper_detected(_by_server), possession_needed (a Finished from any other master secret is refused), run_never_diverges (in the composed connection, whatever is rewritten in transit short of forging a Finished, a client that completes holds the server's transcript). Under Unforgeable: foreign_ske_rejected / foreign_cv_rejected (signature by another key, or over other randoms / other encryption certificate / other transcript). ideal_binding and ideal_unforgeable show both hypotheses are satisfiable by the primitives the executed model uses, so run_never_diverges_ideal holds with no hypothesis. Correspondence: op `auth` runs a real gmtls client against a real gmtls server per line and the Lean driver prints the model's verdict for the same line: 5 ClientAuth policies x 7 client-certificate kinds, 23 mis-configured servers, scripted malicious ends with a consistent transcript (key-exchange signature over other/swapped randoms, other certificate, no length prefix, by another key, empty, replayed from a session with the same server random; CertificateVerify replayed / over another digest / empty; ServerKeyExchange omitted; Finished wrong except its first byte, first 11 bytes, or in its last bit, both directions; substituted pre-master secret), 44 single-field rewrites by a man in the middle plus drop/duplicate of every message and byte flips (sampled in quick, every byte in thorough), InsecureSkipVerify on and off, both suites. Intrinsic oracles: both ends complete => same version, suite, exported keying material and peer certificates; client completes with verification on => verified chain to the trusted root; server never completes when a message it hashed was altered; no panic, no hang.",
+    "note": "Partial by nature: unforgeability, collision resistance and decryption-needs-the-key are hypotheses (Binding, Unforgeable, Prims.dec), not theorems. Not modelled: resumption / tickets, renegotiation, ECDHE suites (server side unimplemented; clients are configured with the ECC suites), VerifyPeerCertificate, ALPN/OCSP/SCT extensions (opaque), record-layer protection of Finished (Wire.finC/finS deliver or drop). DNS-name matching is evaluated by the driver on every run but not by the kernel examples (String functions do not reduce in the kernel: they use an IP-named server). mitm-... lines compare the canonical abort / both-done; malicious-end lines compare c=.. s=.. exactly.",
+    "trusted_base": ["Model.HandshakeAuth mirrors gm_handshake_client_double.go:171-397,501-528, gm_handshake_server_double.go:114-247,324-511,538-688, gm_key_agreement.go:312-454, common.go mutualVersion; tie = op `auth` (harness/c08.go vs Driver/HandshakeAuth.lean: certificate table, attack -> abstract view mapping)", "Model.X509.verify (C10) as the chain-verification predicate", "hook gmtls/export_verif_c08.go (scripted malicious peers: copies of the GM full handshake with omit-ServerKeyExchange / wrong-Finished knobs; attacker side only)", "harness/tls.go in-memory transport and PKI; c08Run stall rule (an end still waiting for input after 4 s counts as abort; an end that does not return after its streams end is a hang)"],
+    "assumptions": ["Binding: P.prf injective in (master, digest) per label, P.hash injective on message lists", "Unforgeable: sigOK k m (sign k' m') -> k = k' and m = m'", "x509.ParseCertificate abstracted as Prims.parse; SM2 decryption as Prims.dec"],
+    "not_proved": ["completeness of run w.r.t. arbitrary message interleavings (views are structured; unexpected or duplicate messages are one inOrder flag)", "standard-TLS path equivalents (handshake_client.go / handshake_server.go) - GM double-certificate path only", "alert codes on the wire (Reason order is modelled, not compared)"],
 }
 
 PROPS["C20"] = {
